@@ -536,4 +536,36 @@ theorem geo_of_call {α} (x : Img α) (mask : Nat → Nat → Bool) (b0 b1 : Nat
     hp := hp, hnd := selected_nodup _ _ _ _ _ _,
     hlt := fun f hf => selected_lt _ _ _ _ _ _ f hf }
 
+theorem inSelected_false_iff (b0 b1 nb0 nb1 : Nat) (idx : List Nat) (i j : Nat) :
+    inSelected b0 b1 nb0 nb1 idx i j = false ↔
+      (¬ (i / b0 < nb0 ∧ j / b1 < nb1) ∨ i / b0 * nb1 + j / b1 ∉ idx) := by
+  unfold inSelected
+  by_cases h0 : i / b0 < nb0 <;> by_cases h1 : j / b1 < nb1 <;>
+    by_cases hm : i / b0 * nb1 + j / b1 ∈ idx <;> simp [h0, h1, hm]
+
+theorem sortR_eq_of_perm (a b : List Rat) (h : a.Perm b) : sortR a = sortR b := by
+  unfold sortR
+  have tr : ∀ (a b c : Rat), decide (a ≤ b) = true → decide (b ≤ c) = true → decide (a ≤ c) = true := by
+    intro a b c h1 h2
+    simp only [decide_eq_true_eq] at *
+    exact le_trans h1 h2
+  have tot : ∀ (a b : Rat), (decide (a ≤ b) || decide (b ≤ a)) = true := by
+    intro a b
+    simp only [Bool.or_eq_true, decide_eq_true_eq]
+    exact le_total a b
+  apply List.Perm.eq_of_pairwise (le := fun a b => decide (a ≤ b) = true)
+  · intro u v _ _ h1 h2
+    simp only [decide_eq_true_eq] at h1 h2
+    exact le_antisymm h1 h2
+  · exact List.pairwise_mergeSort tr tot a
+  · exact List.pairwise_mergeSort tr tot b
+  · exact ((List.mergeSort_perm a _).trans h).trans (List.mergeSort_perm b _).symm
+
+/-- the list handed to the permutation depends on the image only through its shape -/
+theorem shuffleIdx_shape {α β} (x : Img α) (y : Img β) (mask : Nat → Nat → Bool) (b0 b1 : Nat)
+    (padMode part : Bool) (h0 : x.n0 = y.n0) (h1 : x.n1 = y.n1) :
+    shuffleIdx x mask b0 b1 padMode part = shuffleIdx y mask b0 b1 padMode part := by
+  unfold shuffleIdx prepare
+  cases padMode <;> simp [h0, h1]
+
 end Pew.Colocal
